@@ -17,7 +17,20 @@ from cv.core import REPO, VERIF, Check  # noqa: E402
 from cayleypy.string_encoder import StringEncoder  # noqa: E402
 from cayleypy import MatrixGenerator  # noqa: E402
 
-THEOREMS = []
+THEOREMS = [
+    "Cv.C02.Stmt.eval_bit",
+    "Cv.C02.checkProg_sound",
+    "Cv.C02.checkProg_sound_1d",
+    "Cv.C02.decode_encode",
+    "Cv.C02.encode_bit",
+    "Cv.C02.encode_bit_padding",
+    "Cv.C02.permuteBits_action",
+    "Cv.C02.autoWidth_spec",
+    "Cv.C02.generated_routine_action",
+    "Cv.C02.compile_accepted",
+    "Cv.C02.compiled_routine_action",
+    "Cv.C02.compiled_routine_1d",
+]
 M64 = (1 << 64) - 1
 
 
